@@ -355,6 +355,14 @@ class PathEnv:
         if tgt is not None and self._ok_value(val) and not (_is_container_ctor(val) and _is_empty_container(val)) \
                 and not any(isinstance(x, ast.Name) and x.id == tgt for x in ast.walk(val)):
             self.env[tgt] = val
+        # a, b = (x, y): component-wise (the right-hand side is already resolved, so a tuple-valued local works too)
+        if isinstance(st2, ast.Assign) and len(st2.targets) == 1 and isinstance(st2.targets[0], ast.Tuple) and isinstance(st2.value, ast.Tuple) \
+                and len(st2.targets[0].elts) == len(st2.value.elts) and all(isinstance(t, ast.Name) for t in st2.targets[0].elts):
+            names = {t.id for t in st2.targets[0].elts}  # type: ignore[attr-defined]
+            if not any(isinstance(x, ast.Name) and x.id in names for v in st2.value.elts for x in ast.walk(v)):
+                for t, v in zip(st2.targets[0].elts, st2.value.elts):
+                    if self._ok_value(v):
+                        self.env[t.id] = v  # type: ignore[attr-defined]
 
 
 def resolve_path(stmts: list[ast.stmt], allow_calls: bool = False) -> list[ast.stmt]:
